@@ -358,14 +358,26 @@ def judge(case):
             if K.cross(d, e) == (0, 0, 0):
                 return core.not_admitted("accidentally-collinear")
             pts = [p, K.add(p, d), K.add(p, K.mul(d, 2)), K.add(p, e)]
-            if r.random() < 0.5:
+            ch = r.random()
+            if ch < 0.35:
                 pts = [p, K.add(p, d), K.add(p, e)]
+            elif ch < 0.7:
+                # repeated points anywhere in the list (a repeated neighbour must not hide the point that leaves the line)
+                base = [p, K.add(p, d), K.add(p, K.mul(d, 2))]
+                pts = []
+                for q in base:
+                    pts += [q] * r.randint(1, 2)
+                pts.insert(r.randint(2, len(pts)), K.add(pts[-1] if r.random() < 0.5 else p, e))
+                if r.random() < 0.5:
+                    j = r.randrange(1, len(pts))
+                    pts.insert(j, pts[j - 1])
             _expect_raise(mu, lambda: G.get_segment_from_point_list([_P(G, x) for x in pts]), cls + ":non-collinear", "get_segment_from_point_list(non-collinear points)")
         return mu.result()
     if cls == "move-non-vector":
         k = r.choice(GEO)
         o = lift(gen.rand_obj(r, k, small=True), r)
-        arg = r.choice([(1, 2, 3), [1.0, 0.0, 0.0], _P(G, p), 3, 2.5, None, "x"])
+        arg = r.choice([(1, 2, 3), [1.0, 0.0, 0.0], _P(G, p), 3, 2.5, None, "x",
+                        (0, 0, 0), [0.0, 0.0, 0.0], G.origin(), G.Point(0, 0, 0), 0])       # (a zero displacement of the wrong type is still the wrong type)
         _expect_raise(mu, lambda: o.move(arg), "%s:%s" % (cls, k), "%s.move(%r)" % (gen.NAMES[k], arg), allowed=ALLOWED_EXC)
         return mu.result()
     # unsupported operand pairs
